@@ -152,3 +152,16 @@ pub proof fn lemma_frozen_from_final_window<M: Math>(s0: ExternalTransformAdapta
     ensures r is Ok, h1.updates() == h0.updates(), h1.trans() == h0.trans()
 {
 }
+
+/// `AdaptStrategy::init` of the flow strategy [C05.4 / C13.2 / C06]: the flow is initialised at the start point, then the
+/// step-size strategy is initialised (contract of `Strategy::init`, proved in unit stepsize_init).  Ok is answered only
+/// if the initialisation of the transformation did not fail (its error is not swallowed); the schedule fields of
+/// the strategy are not touched; the step size the chain starts with is the one `Strategy::init` chose.
+pub open spec fn et_init_post<M: Math>(s0: ExternalTransformAdaptation, s1: ExternalTransformAdaptation, h0: FlowHam<M>, h1: FlowHam<M>,
+                                     r: Result<(), NutsError>) -> bool {
+    &&& r is Ok ==> exists|m: FlowHam<M>| #[trigger] FlowHam::<M>::init_done(h0, m) && m.step() == h0.step()   // [C05.4] [C13.2]
+    &&& s1.num_tune == s0.num_tune && s1.final_window_size == s0.final_window_size && s1.tuning == s0.tuning
+        && s1.options == s0.options && s1.chain == s0.chain                                // [C06.1]
+    &&& r is Ok ==> ss_init_post(s0.step_size, s1.step_size, h0.step(), h1.step(), true)  // [C06.4]
+    &&& strat_wf(s1.step_size)
+}
